@@ -39,7 +39,7 @@ pub struct W<'t> {
 }
 
 const NUMS: [&str; 16] = ["0", "1", "2", "-1", "3", "7", "255", "256", "32767", "-32768", "40000", "0.5", "2.25", "100000", "1.5#", "10"];
-const STRS: [&str; 10] = ["\"\"", "\"a\"", "\"Hello\"", "\"x,y\"", "\"  pad  \"", "\"12\"", "\"-3.5\"", "\"abc def\"", "\"QB45\"", "\"f1.tmp\""];
+const STRS: [&str; 17] = ["\"123\u{e9}56\"", "(\"abc\" + CHR$(200) + \"x\")", "(CHR$(130) + \"abcdefgh\")","\"\"", "\"a\"", "\"Hello\"", "\"x,y\"", "\"  pad  \"", "\"12\"", "\"-3.5\"", "\"abc def\"", "\"QB45\"", "\"f1.tmp\"", "CHR$(200)", "\"Zo\u{eb} K\"", "STRING$(3, 233)", "(\"ab\" + CHR$(255) + \"cd\")"];
 const FILES: [&str; 3] = ["\"f1.tmp\"", "\"f2.tmp\"", "\"f3.tmp\""];
 
 impl<'t> W<'t> {
